@@ -555,9 +555,10 @@ class Mitochondria:
                         if kw.arg is None:
                             raise ValueError("Keyword unpacking (**) is not supported")
                         kwargs[kw.arg] = self._compute_node(kw.value)
-                    if callable(func):
-                        return func(*args, **kwargs)
-                    return func  # Constants like pi, e
+                    if not callable(func):
+                        # Constants like pi, e are values, not functions
+                        raise ValueError(f"'{func_name}' is a constant, not a function")
+                    return func(*args, **kwargs)
                 raise ValueError(f"Unknown function: {func_name}")
             raise ValueError("Complex function calls not supported")
 
